@@ -215,7 +215,7 @@ def server_level(ctx, quick):
     n = 3 if quick else 40
     for it in range(n):
         for kind in ("conftest", "test", "plugin_pkg"):
-            for placement in ("open_first", "visit_first", "unsynchronised"):
+            for placement in ("open_first", "visit_first", "unsynchronised", "burst"):
                 for further_kind in ("new_text", "disk_text"):
                     if quick and (it + hash_str(kind + placement + further_kind)) % 3 != 0 and not (it == 0):
                         continue
@@ -248,7 +248,7 @@ def one_server_run(ctx, kind, placement, further_kind, orders_seen, it):
     gate = ctx.scratch("gate")
     evlog = os.path.join(gate, "events.log")
     env = {"VERIF_EVENT_LOG": evlog, "VERIF_DELAY": f"{ctx.seed + it}:200000"}
-    if placement != "unsynchronised":
+    if placement not in ("unsynchronised", "burst"):
         env.update({"VERIF_SCAN_GATE": gate, "VERIF_SCAN_GATE_MATCH": "/" + rel})
     hold_phase = kind == "plugin_pkg" and placement == "visit_first"
     if hold_phase:
@@ -287,6 +287,16 @@ def one_server_run(ctx, kind, placement, further_kind, orders_seen, it):
             if hold_phase:
                 open(os.path.join(gate, "phase2_done.go"), "w").close()
                 tag = tag + ("held_before_venv_phase",)
+        elif placement == "burst":
+            # didOpen with a large text and the first edit leave the editor together, while the scan runs
+            big = disk + "\n" + "".join(f"@pytest.fixture\ndef pasted_{i}():\n    return {i}\n\n" for i in range(3000))
+            before = srv.seq
+            with srv.batch():
+                srv.did_open(F, big)
+                srv.did_change(F, buf)
+            srv.wait_diagnostics(F, before, timeout=30)
+            srv.document_symbol(F)
+            srv.pump(0.3)
         else:
             before = srv.seq
             srv.did_open(F, buf)
